@@ -93,7 +93,7 @@ CHECKS = {
                 "system: in every observation of every history, winner/conflicting/in_conflict == the rule applied to the library's own revision sets and to the trees parsed from the raw block files. "
                 "non-trivial (unit) = >=2 live leaves, a marker, an index >=10 or a dangling subtree; (system) = >=2 live leaves seen or an index >= 10." + DISTINCT,
         "assumptions": ASSUME_COMMON,
-        "jobs": [mode("trees", "c05unit", (32000, 1200000)), mode("order", "c19unit", (64, 3200)), engine("conflict", "conflict", "C05", (640, 30000)), engine("long", "long", "C05", (64, 3200)), engine("verylong", "verylong", "C05", (12, 320))],
+        "jobs": [mode("trees", "c05unit", (32000, 1200000)), mode("order", "c19unit", (64, 3200)), engine("conflict", "conflict", "C05", (640, 30000)), engine("conflict-8-replicas", "conflict", "C05", (64, 3200), args={"reps": 8, "steps": 100}), engine("long", "long", "C05", (64, 3200)), engine("verylong", "verylong", "C05", (12, 320))],
     },
     "C06": {
         "level": "exploration", "floor": 50,
@@ -120,6 +120,7 @@ CHECKS = {
         "jobs": [engine("allops", "allops", "C08", (1920, 120000), env_by_shard=THREADS_WIDE, args_by_shard=[{"delay": d} for d in (0, 3, 5, 0, 7, 9, 11, 13)]),
                  engine("lowlevel", "lowlevel", "C08", (640, 40000), env_by_shard=THREADS_WIDE, args_by_shard=[{"delay": d} for d in (0, 21, 0, 23)]),
                  engine("conflict", "conflict", "C08", (640, 40000), env_by_shard=THREADS_WIDE),
+                 engine("allops-8-replicas", "allops", "C08", (64, 3200), env_by_shard=THREADS_WIDE, args={"reps": 8, "steps": 100}),
                  mode("deep-nesting", "c03deep", (320, 16000)),
                  {"name": "miri", "external": "miri", "tier": "thorough", "scripts": 8}],
     },
@@ -152,14 +153,14 @@ CHECKS = {
         "rule": "serialised read() before vs after commit (incl. its automatic array resolution), stage_full_snapshot, meld alone, and refresh/reload on a replica that is not behind and has nothing staged (for these also full state); a refused refresh/reload must leave everything untouched. "
                 "Histories are conflict-heavy with elements removed on one branch and kept on another, staged changes present. non-trivial = a commit or snapshot ran with >=1 flattened array in conflict." + DISTINCT,
         "assumptions": ASSUME_COMMON,
-        "jobs": [engine("maint", "maint", "C12", (1600, 60000)), engine("conflict", "conflict", "C12", (480, 30000)), engine("lowlevel", "lowlevel", "C12", (320, 16000)), engine("kind", "kind", "C12", (640, 30000))],
+        "jobs": [engine("maint", "maint", "C12", (1600, 60000)), engine("conflict", "conflict", "C12", (480, 30000)), engine("conflict-8-replicas", "conflict", "C12", (48, 2400), args={"reps": 8, "steps": 100}), engine("lowlevel", "lowlevel", "C12", (320, 16000)), engine("kind", "kind", "C12", (640, 30000))],
     },
     "C13": {
         "level": "exploration", "floor": 20,
         "rule": "at each commit -> Some(A): |A| = 1, the adapter log shows exactly one new block, its parsed parents == the heads observed just before, index > every parent's, heads after == A, info as passed. At every observation: applied set (hook) ancestor-closed, heads == applied blocks not named as parent by an applied block "
                 "== reference model heads; get_delta's info/parents/packs == what the reference parses from the raw block on every replica holding it. Branching histories with 3-4 replicas, merges of several heads, commits after time travel, partial delivery. A dedicated scenario redoes, from the past, exactly the edit and metadata of an existing pack-less child block, so that the commit reproduces that block byte for byte: it must still become the only head and the next commit must build on it. non-trivial = a commit had >=2 parents." + DISTINCT,
         "assumptions": ASSUME_COMMON,
-        "jobs": [engine("graph", "graph", "C13", (1600, 60000)), engine("conflict", "conflict", "C13", (480, 30000)), mode("verbatim-redo", "c13redo", (320, 16000))],
+        "jobs": [engine("graph", "graph", "C13", (1600, 60000)), engine("conflict", "conflict", "C13", (480, 30000)), engine("graph-8-replicas", "graph", "C13", (64, 3200), args={"reps": 8, "steps": 100}), mode("verbatim-redo", "c13redo", (320, 16000))],
     },
     "C14": {
         "level": "exploration", "floor": 20,
